@@ -45,7 +45,7 @@ def worklist_part(ctx):
     picks = []
     for it in ctx["items"]:
         gs = it.get("goals") or []
-        if gs and it.get("text") and len(picks) < (10 if quick else 60):
+        if gs and it.get("text") and len(picks) < (6 if quick else 60):
             picks.append({"wid": it["id"], "text": it["text"], "goal": gs[-1], "timeout": 60})
     seeds = ["0", "1", "2", "3"] if quick else ["0", "1", "2", "3", "4", "5", "6", "7"]
     obs = {}
@@ -113,7 +113,7 @@ def post_all(ctx):
 
 
 def main(tier, seed):
-    items = standard_items(seed, tier, 18, 100, bench_quick=6, ps_quick=12, ps_thorough=220)
+    items = standard_items(seed, tier, 10, 100, bench_quick=3, ps_quick=6, ps_thorough=220)
     return analysis_check("C03", tier, seed, items=items, want=["normalized", "recs"],
                           builders=[C.b_normalized, C.b_recs], N=4 if tier == "quick" else 6, post=post_all,
                           assumptions=["the program judged is Polar's normalized program as exported by the harness "
